@@ -69,21 +69,22 @@ Srrs(L) == SelectSeq(L.out, LAMBDA o : o.mt = MT_SRREQ)
 MyRsps(L) == SelectSeq(L.out, LAMBDA o : o.mt \in RespTypes /\ o.to = L.e.peer /\ o.seq = L.e.seq)
 
 \* ------------------------------------------------------------------ data-plane ghost from the observed calls
-DpStep(dp, c) == IF c.res = "ok" /\ c.op = "create" THEN dp \cup {KeyOf(c)}
+\* res: "ok", "err" (no effect), "err+" (a create that reported an error after the rule had been installed)
+DpStep(dp, c) == IF c.res \in {"ok", "err+"} /\ c.op = "create" THEN dp \cup {KeyOf(c)}
                  ELSE IF c.res = "ok" /\ c.op = "remove" THEN dp \ {KeyOf(c)} ELSE dp
 DpAfter(dp, calls) == FoldLeft(DpStep, dp, calls)
 \* the twin itself must behave like a table (else the run is void: infrastructure, not a verdict)
 TwinOk(dp, calls) ==
   FoldLeft(LAMBDA acc, c :
-            [ok |-> acc.ok /\ (c.res = "ok" => IF c.op = "create" THEN KeyOf(c) \notin acc.dp ELSE KeyOf(c) \in acc.dp),
+            [ok |-> acc.ok /\ (c.res # "err" => IF c.op = "create" THEN KeyOf(c) \notin acc.dp ELSE KeyOf(c) \in acc.dp),
              dp |-> DpStep(acc.dp, c)],
           [ok |-> TRUE, dp |-> dp], calls).ok
 
 CreateOps(e)      == {o \in Rng(e.ops) : o.op = "create"}
 CreateKeys(e, sd) == {<<sd, o.kind, o.id>> : o \in CreateOps(e)}
 RemovedOk(calls)  == {KeyOf(c) : c \in {x \in Rng(calls) : x.op = "remove" /\ x.res = "ok"}}
-CreatedOk(calls)  == {KeyOf(c) : c \in {x \in Rng(calls) : x.op = "create" /\ x.res = "ok"}}
-AnyFailed(calls)  == \E c \in Rng(calls) : c.res = "err"
+CreatedOk(calls)  == {KeyOf(c) : c \in {x \in Rng(calls) : x.op = "create" /\ x.res \in {"ok", "err+"}}}
+AnyFailed(calls)  == \E c \in Rng(calls) : c.res # "ok"
 
 \* ------------------------------------------------------------------ which sessions does the event address / end?
 EstAccepted(g, e) == e.t = "est" /\ e.node \in AssocNodes(g) /\ e.cp # ""
@@ -253,6 +254,11 @@ VCalls(g, L) ==
        V(\A c \in Rng(L.calls) : c.seid \in A \/ c.seid \notin LiveSeids(g), "C05:data-plane call tagged with another session's SEID"),
        V(\A c \in Rng(L.calls) : c.op \in {"update", "remove", "query"} => KeyOf(c) \in ever,
          "C01:update/remove/query for a rule the session never created"),
+       \* ... nor for a rule whose removal succeeded in an earlier request (within one request the order of
+       \* the IEs is the implementation's business, e.g. session close removes a URR and then its PDRs)
+       V(\A c \in Rng(L.calls) : c.op \in {"update", "remove", "query"} =>
+            KeyOf(c) \in g.created \cup (IF TargetSeid(g, L) # "" THEN CreateKeys(L.e, TargetSeid(g, L)) ELSE {}),
+         "C01:update/remove/query for a rule that an earlier request removed"),
        V(\A r \in dp2 : r[1] \in live2, "C01:rule in the data plane without a live session"),
        V(\A r \in dp2 : r[1] \in live2 => r \in cr2, "C01:rule in the data plane not requested by a pending Create") }
 
